@@ -164,6 +164,12 @@ func famServeHostile(o *corr.Out) {
 		"orphan-message":           frame(drpcwire.KindMessage, 3, 1, []byte("hello")),
 		"invoke-twice":             append(frame(drpcwire.KindInvoke, 1, 1, []byte("/p/1/w.x")), frame(drpcwire.KindInvoke, 1, 2, []byte("/p/1/x"))...),
 	}
+	// a call abandoned between its metadata and its invoke (soft cancel), then a complete call: the
+	// second call's handler must run (the connection keeps serving)
+	abandoned := append(frame(drpcwire.KindInvokeMetadata, 1, 1, []byte{0x0a, 0x04, 0x0a, 0x00, 0x12, 0x00}),
+		drpcwire.AppendFrame(nil, drpcwire.Frame{ID: drpcwire.ID{Stream: 1, Message: 2}, Kind: drpcwire.KindCancel, Control: true, Done: true})...)
+	full2 := append(frame(drpcwire.KindInvoke, 2, 1, []byte("/p/2/x")), frame(drpcwire.KindCloseSend, 2, 2, nil)...)
+	cases["abandoned-then-call"] = append(abandoned, full2...)
 	var names []string
 	for n := range cases {
 		names = append(names, n)
@@ -176,12 +182,25 @@ func famServeHostile(o *corr.Out) {
 		p.Flow = true
 		nb := &netEnd{End: b}
 		ctx, cancel := context.WithCancel(context.Background())
+		hw := &World{D: d, enc: &sm.Enc{}}
+		srv = drpcserver.New(handler{hw})
 		d.Go("serve1", func() string { return errName(srv.ServeOne(ctx, nb)) })
 		d.Settle()
 		_, _ = a.Write(cases[name])
 		d.Settle()
 		_, returned := d.Result("serve1")
 		desc := "serve-hostile " + name
+		if name == "abandoned-then-call" {
+			hw.mu.Lock()
+			ran := strings.Contains(strings.Join(hw.log, ","), "H2:start")
+			hw.mu.Unlock()
+			if !ran && !returned {
+				gs, _ := d.Settle()
+				o.Oracle("C06:probe-completes", desc, "the call after an abandoned one never reached its handler; blocked: "+strings.Join(d.Census(gs), " | "))
+			} else {
+				o.OracleOK("C06:probe-completes")
+			}
+		}
 		if !returned {
 			// still serving is fine; then cancelling its context must end it
 			cancel()
@@ -295,8 +314,10 @@ func famServeModel(o *corr.Out, n int) {
 		for i := 0; i < nops; i++ {
 			var op string
 			switch k := r.Intn(10); {
-			case k < 4:
+			case k < 3:
 				op = "connect"
+			case k < 4:
+				op = "burst" // two connections arrive before the accept loop looks again
 			case k < 6:
 				op = "cancel"
 			case k < 7 && !usedTemp:
@@ -313,6 +334,21 @@ func famServeModel(o *corr.Out, n int) {
 			}
 			ops = append(ops, op)
 			switch {
+			case op == "burst":
+				lis.mu.Lock()
+				open := lis.closes == 0
+				if open {
+					for k := 0; k < 2; k++ {
+						p, a, b := director.NewPipe()
+						p.Flow = true
+						id := len(conns)
+						nb := &netEnd{End: b}
+						conns = append(conns, cn{a, nb})
+						lis.connsAny = append(lis.connsAny, &readEnd{netEnd: nb, started: func() { mu.Lock(); served = append(served, id); mu.Unlock() }})
+					}
+					lis.cond.Broadcast()
+				}
+				lis.mu.Unlock()
 			case op == "connect":
 				p, a, b := director.NewPipe()
 				p.Flow = true
@@ -371,7 +407,20 @@ func famServeModel(o *corr.Out, n int) {
 				}
 				c.nb.mu.Unlock()
 			}
-			obs = append(obs, fmt.Sprintf("[ret=%s returned=%s closes=%d served=%s ended=%s]", ret, b01(done), closes, ids(sv), ids(ended)))
+			obs = append(obs, fmt.Sprintf("[ret=%s returned=%s closes=%d served=%s ended=%s]", ret, b01(done), closes, ids(sortedInts(sv)), ids(ended)))
+		}
+		// every accepted connection is driven by exactly one manager: never two reads (or two writes)
+		// in flight on one transport
+		over := ""
+		for id, c := range conns {
+			if mw, mr := c.nb.End.Limits(); mw > 1 || mr > 1 {
+				over = fmt.Sprintf("connection %d saw %d reads / %d writes in flight at once", id, mr, mw)
+			}
+		}
+		if over != "" {
+			o.Oracle("C07:one-manager-per-connection", "serve ops="+strings.Join(ops, ","), over)
+		} else {
+			o.OracleOK("C07:one-manager-per-connection")
 		}
 		o.Case("serve ops="+strings.Join(ops, ","), strings.Join(obs, " "), len(ops) >= 3)
 		o.Stat(fmt.Sprintf("serve-model:ops%d", len(ops)))
@@ -382,6 +431,12 @@ func famServeModel(o *corr.Out, n int) {
 		}
 		d.Settle()
 	}
+}
+
+func sortedInts(xs []int) []int {
+	out := append([]int(nil), xs...)
+	sort.Ints(out)
+	return out
 }
 
 func ids(xs []int) string {
